@@ -759,6 +759,9 @@ class Interp(BuiltinsMixin, StmtMixin, DictMixin):
                 vals.append(t)
             return VBool(z3.And(vals) if is_and else z3.Or(vals))
         is_and = isinstance(node.op, ast.And)
+        merged = self.try_pure_boolop(node, is_and, st, fr)
+        if merged is not None:
+            return merged
         val = None
         for i, sub in enumerate(node.values):
             val = self.ev(sub, st, fr)
@@ -770,6 +773,51 @@ class Interp(BuiltinsMixin, StmtMixin, DictMixin):
             if not is_and and t:
                 return val
         return val
+
+    def try_pure_boolop(self, node, is_and, st, fr):
+        """`a and b` / `a or b` whose operands evaluate to booleans without
+        any decision, obligation, exception or heap write is the logical
+        connective of the operand formulas (no path split).  Otherwise
+        everything is rolled back and None is returned."""
+        from pyvc.state import NeedBranch, PathEnd
+        if not getattr(self.uni, "merge_boolops", False):
+            return None
+        if getattr(self.dec, "trial", False):
+            # nested inside an enclosing speculative evaluation (which does
+            # the roll-back)
+            vals = []
+            for sub in node.values:
+                v = self.ev(sub, st, fr)
+                if not isinstance(v, VBool):
+                    raise NeedBranch()
+                vals.append(v.e)
+            return VBool(z3.And(vals) if is_and else z3.Or(vals))
+        n_tr, n_pc, n_ob = len(self.dec.trace), len(st.pc), len(self.obls)
+        heap0 = dict(st.heap)
+        self.dec.trial = True
+        ok, vals = True, []
+        try:
+            for sub in node.values:
+                v = self.ev(sub, st, fr)
+                if not isinstance(v, VBool):
+                    ok = False
+                    break
+                vals.append(v.e)
+        except (NeedBranch, PyRaise, Unsupported, PathEnd):
+            ok = False
+        finally:
+            self.dec.trial = False
+        if ok and len(self.obls) == n_ob \
+                and set(st.heap) == set(heap0) and \
+                all(st.heap[k].eq(heap0[k]) for k in heap0):
+            # decisions taken meanwhile were forced by the path condition
+            # alone (no operand was assumed): they stay
+            return VBool(z3.And(vals) if is_and else z3.Or(vals))
+        del self.dec.trace[n_tr:]
+        del st.pc[n_pc:]
+        del self.obls[n_ob:]
+        st.heap = heap0
+        return None
 
     def ev_IfExp(self, node, st, fr):
         if fr.spec:
@@ -806,6 +854,11 @@ class Interp(BuiltinsMixin, StmtMixin, DictMixin):
         return VBool(z3.And(conds) if len(conds) > 1 else conds[0])
 
     def compare(self, op, a, b, st, fr):
+        chook = getattr(self.uni, "compare_hook", None)
+        if chook:
+            r = chook(self, type(op).__name__, a, b, st, fr)
+            if r is not None:
+                return r
         if isinstance(op, ast.Is):
             return self.same(a, b)
         if isinstance(op, ast.IsNot):
@@ -935,6 +988,11 @@ class Interp(BuiltinsMixin, StmtMixin, DictMixin):
                              hk(it, _o, a, k, st2, fr2))
             raise Unsupported(f"attribute .{attr} of {obj}")
         if isinstance(obj, VClass):
+            chook = getattr(uni, "class_attr", None)
+            if chook:
+                r = chook(self, obj.name, attr, st, fr)
+                if r is not None:
+                    return r
             if obj.name in uni.enums and attr in uni.enums[obj.name].members:
                 desc = uni.enums[obj.name]
                 return VEnum(desc, desc.index(attr))
